@@ -39,7 +39,9 @@ Proof.
   vm_compute. split; reflexivity.
 Qed.
 
-(* ---- X05-F3: lockset discipline for the field RankCalculator.entries (hand-transcribed access table) ---- *)
+(* ---- X05-F3: lockset discipline for the field RankCalculator.entries (hand-transcribed access table: the record of the
+   PINNED code.  The statement about the CURRENT source is Props/X05Lock.v, over the skeleton regenerated from
+   rankCalculation/rankCalculator.go on every run) ---- *)
 Inductive lockmode := NoLock | RLock | WLock.
 Record access := { meth : string; is_write : bool; held : lockmode }.
 
